@@ -18,6 +18,13 @@ class Guderley(ExactSolver):
     gamma = 1.4
     rho0 = 1.0
 
+    def __init__(self, **kwargs):
+        super(Guderley, self).__init__(**kwargs)
+        if self.geometry not in [2, 3]:
+            raise ValueError("geometry must be 2 or 3")
+        if not (1.00001 < self.gamma < 9999.0):
+            raise ValueError("Invalid polytropic index.")
+
     def _run(self, r, t):
 
         den, vel, pres, snd, sie = guderley_1d(t=t,
